@@ -96,7 +96,7 @@ Section C04_queue.
        exists loss, sassoc sp (l_losses s) = Some loss /\ In (loss, sp, None) (l_queue s)) /\
     (forall loss sp, In (loss, sp, None) (l_queue s) -> In sp (cur_simplices s) ->
        sassoc sp (l_losses s) = Some loss).
-  Proof. exact (@queue_complete L lmul ldiv labs linf rnd d corners fix12). Qed.
+  Proof. exact (@queue_complete L lmul ldiv labs linf rnd (fun _ _ => true) d corners true fix12 eq_refl). Qed.
 
   (* ... hence, when no simplex is subdivided (nothing pending), the entry popped by
      _ask_best_point is an unsubdivided live simplex whose rounded loss is the largest of all
@@ -111,7 +111,7 @@ Section C04_queue.
       u = None /\ In sp (cur_simplices s) /\ sassoc sp (l_losses s) = Some loss /\
       forall sp' loss', In sp' (cur_simplices s) -> sassoc sp' (l_losses s) = Some loss' ->
         (rnd loss' <= rnd loss)%Z.
-  Proof. exact (@next_point_in_worst_simplex L lmul ldiv labs linf rnd d corners fix12). Qed.
+  Proof. exact (@next_point_in_worst_simplex L lmul ldiv labs linf rnd (fun _ _ => true) d corners true fix12 eq_refl). Qed.
 End C04_queue.
 
 (* ------------------------------------------------------------------ *)
